@@ -155,4 +155,22 @@ def endBlock (g : Group) (height creationPeriod : Int) (reachable : Bool) : Grou
     { g2 with interim := false }
   else g1
 
+/-! ### the expiry walk over ALL groups (`HandleExpiredGroups`) -/
+
+/-- what the walk does to one group it reaches: interim data deleted; EXPIRED unless the creation already ended -/
+def expireOne (g : Group) : Group :=
+  { (if g.status ≠ .active ∧ g.status ≠ .fallen then { g with status := .expired } else g) with interim := false }
+
+def due (period height : Int) (g : Group) : Bool := decide (g.createdHeight + period ≤ height)
+
+/-- the groups `lastExpired+1 …` in id order: every due group is processed until the first one that is not due; returns the
+    groups afterwards and how many were processed (the new `lastExpired` is the old one plus that number) -/
+def expireWalk (period height : Int) : List Group → List Group × Nat
+  | [] => ([], 0)
+  | g :: rest =>
+    if due period height g then
+      let r := expireWalk period height rest
+      (expireOne g :: r.1, r.2 + 1)
+    else (g :: rest, 0)
+
 end BandVerif.Dkg
